@@ -5,11 +5,19 @@ import (
 	"bytes"
 	"context"
 	"fmt"
+	"io"
+	"net"
 	"net/http"
+	"net/http/httptest"
 	"net/url"
 	"os"
 	"strings"
+	"sync"
 	"testing"
+	"time"
+
+	"github.com/gobwas/ws"
+	"github.com/gobwas/ws/wsutil"
 
 	"google.golang.org/genproto/googleapis/api/annotations"
 	"google.golang.org/protobuf/encoding/protojson"
@@ -61,6 +69,11 @@ type Case struct {
 	// field (a sub-field of a well-known-type message, or the sibling member
 	// of its oneof) - that must not disturb the path value either.
 	SubCompete []bool `json:"sub_compete"`
+	// WS: the rule is a WebSocket binding; the body travels as the first data
+	// frame, preceded by WSEmpty zero-length frames (text or binary).
+	WS       bool `json:"ws"`
+	WSEmpty  int  `json:"ws_empty"`
+	WSBinary bool `json:"ws_binary"`
 }
 
 // subKey returns the query key/value that reaches into field f.
@@ -148,6 +161,10 @@ func (c Case) path() string {
 func (c Case) rule() *annotations.HttpRule {
 	r := &annotations.HttpRule{Body: c.Body}
 	t := c.template()
+	if c.WS {
+		r.Pattern = &annotations.HttpRule_Custom{Custom: &annotations.CustomHttpPattern{Kind: "websocket", Path: t}}
+		return r
+	}
 	switch c.Verb {
 	case "GET":
 		r.Pattern = &annotations.HttpRule_Get{Get: t}
@@ -208,9 +225,12 @@ func Check(c Case) (vs []evid.Violation, delivered bool) {
 	if err != nil {
 		panic(err)
 	}
+	var gotMu sync.Mutex
 	var got []proto.Message
 	sd := w.ServiceDesc("c7.Svc", func(ctx context.Context, fm string, req *dynamicpb.Message) (proto.Message, error) {
+		gotMu.Lock()
 		got = append(got, proto.Clone(req))
+		gotMu.Unlock()
 		return req, nil
 	}, nil)
 	mux, err := larking.NewMux(larking.FilesOption(w.Files))
@@ -297,16 +317,26 @@ func Check(c Case) (vs []evid.Violation, delivered bool) {
 			body, _ = protojson.Marshal(bodyMsg)
 		}
 	}
-	var req *http.Request
-	if len(body) > 0 {
-		req = drive.Request(c.Verb, c.path(), q.Encode(), hdr, bytes.NewReader(body), int64(len(body)))
+	var res drive.Result
+	if c.WS {
+		if v := wsExchange(mux, c, q.Encode(), body, bodyMsg != nil); v != nil {
+			return []evid.Violation{*v}, false
+		}
+		res.Rec = httptest.NewRecorder()
 	} else {
-		req = drive.Request(c.Verb, c.path(), q.Encode(), hdr, nil, 0)
+		var req *http.Request
+		if len(body) > 0 {
+			req = drive.Request(c.Verb, c.path(), q.Encode(), hdr, bytes.NewReader(body), int64(len(body)))
+		} else {
+			req = drive.Request(c.Verb, c.path(), q.Encode(), hdr, nil, 0)
+		}
+		res = drive.Serve(mux, req)
+		if res.Panic != nil {
+			return []evid.Violation{evid.V("panic", res.PanicSig(), "panic: %v", res.Panic)}, false
+		}
 	}
-	res := drive.Serve(mux, req)
-	if res.Panic != nil {
-		return []evid.Violation{evid.V("panic", res.PanicSig(), "panic: %v", res.Panic)}, false
-	}
+	gotMu.Lock()
+	defer gotMu.Unlock()
 	if len(got) == 0 {
 		// Rejecting the request is allowed by the property (the handler
 		// never sees a replaced value); it is only counted.
@@ -336,6 +366,58 @@ func Check(c Case) (vs []evid.Violation, delivered bool) {
 		vs = append(vs, evid.V("other-fields", "", "handler got %v want %v", g, want))
 	}
 	return vs, true
+}
+
+// wsExchange dials the rule over a real connection (WebSocket needs a
+// hijackable one), sends the empty frames and then the body frame, and waits
+// for the server's close frame. It returns a violation only when the harness
+// itself can not talk to the server.
+func wsExchange(mux http.Handler, c Case, rawQuery string, body []byte, hasBody bool) *evid.Violation {
+	real := drive.Real()
+	real.Use(mux)
+	u := "ws://" + real.Addr + (&url.URL{Path: c.path()}).EscapedPath()
+	if rawQuery != "" {
+		u += "?" + rawQuery
+	}
+	ctx, cancel := context.WithTimeout(context.Background(), 10*time.Second)
+	defer cancel()
+	conn, br, _, err := ws.Dial(ctx, u)
+	if err != nil {
+		return nil // refused at the handshake: nothing was delivered
+	}
+	defer conn.Close()
+	conn.SetDeadline(time.Now().Add(10 * time.Second))
+	var rd io.Reader = conn
+	if br != nil {
+		rd = br
+	}
+	op := ws.OpText
+	if c.WSBinary {
+		op = ws.OpBinary
+	}
+	if hasBody {
+		for i := 0; i < c.WSEmpty; i++ {
+			if wsutil.WriteClientMessage(conn, op, nil) != nil {
+				return nil
+			}
+		}
+		if wsutil.WriteClientMessage(conn, op, body) != nil {
+			return nil
+		}
+	}
+	for {
+		f, err := ws.ReadFrame(rd)
+		if err != nil {
+			if ne, ok := err.(net.Error); ok && ne.Timeout() {
+				v := evid.V("ws-hang", "ws-hang", "no close frame within 10 s on %s", u)
+				return &v
+			}
+			return nil
+		}
+		if f.Header.OpCode == ws.OpClose {
+			return nil
+		}
+	}
 }
 
 func varIs(c Case, f string) bool {
@@ -463,6 +545,12 @@ func genCase(t *rapid.T) Case {
 	if c.Body == "" {
 		c.OtherInBody = false
 	}
+	if rapid.IntRange(0, 19).Draw(t, "ws") == 0 {
+		// the same rule as a WebSocket binding (JSON frames); a few zero-length frames may precede the message
+		c.WS, c.Codec = true, "json"
+		c.WSEmpty = rapid.SampledFrom([]int{0, 0, 1, 2}).Draw(t, "wsEmpty")
+		c.WSBinary = rapid.Bool().Draw(t, "wsBinary")
+	}
 	return c
 }
 
@@ -490,7 +578,10 @@ func classes(c Case, delivered bool) (string, []string) {
 			cl = append(cl, "multi-segment-pattern")
 		}
 	}
-	key += fmt.Sprintf("|json=%v|twice=%v", c.JSONKeys, c.QueryTwice)
+	key += fmt.Sprintf("|json=%v|twice=%v|ws=%v,%d,%v", c.JSONKeys, c.QueryTwice, c.WS, c.WSEmpty, c.WSBinary)
+	if c.WS {
+		cl = append(cl, fmt.Sprintf("websocket-binding:empty-frames=%d", c.WSEmpty))
+	}
 	if delivered {
 		cl = append(cl, "delivered")
 	} else {
